@@ -21,4 +21,5 @@ var Checks = map[string]vk.Check{
 	"C07": C07,
 	"C15": C15,
 	"C16": C16,
+	"C06": C06,
 }
